@@ -215,8 +215,27 @@ def add (E : Env) (s : St) (o : Id) : Res St :=
   else if E.kind o = Kind.static then addToLanelets E { s with statics := s.statics ++ [o] } o
   else addToLanelets E { s with dynamics := s.dynamics ++ [o] } o
 
-/-- `Scenario.remove_obstacle(obstacle)` with the obstacle object stored in the scenario. -/
+/-- the shape part of `_remove_dynamic_obstacle_from_lanelets` after the repair d431666 (scenario.py:799-815): both loops are
+    guarded like the centre loop (`lanelet is not None and time_step in lanelet.dynamic_obstacles_on_lanelet`), nothing can raise -/
+def unregShape (E : Env) (o : Id) (f : Fwd) (r : DReg) : DReg :=
+  let r1 := discardDyn E o (E.t0 o) (f.initShape.getD []) r
+  if E.kind o = Kind.dynTraj then discardItems E o (f.predShape.getD []) r1 else r1
+
+/-- `Scenario.remove_obstacle(obstacle)` with the obstacle object stored in the scenario (after 680e9aa and d431666): total. -/
 def remove (E : Env) (s : St) (o : Id) : Res St :=
+  if o ∈ s.statics then
+    .ok { s with sreg := removeStaticReg E o (s.fwd o) s.sreg, statics := s.statics.filter (· ≠ o) }
+  else if o ∈ s.dynamics then
+    if E.kind o = Kind.dynSet ∨ E.lanelets = [] then .ok { s with dynamics := s.dynamics.filter (· ≠ o) }
+    else .ok { s with dreg := unregCenter E o (s.fwd o) (unregShape E o (s.fwd o) s.dreg),
+                      dynamics := s.dynamics.filter (· ≠ o) }
+  else .ok s        -- warning only
+
+/-- LEGACY (before d431666): the shape loops of `_remove_dynamic_obstacle_from_lanelets` unguarded —
+    `find_lanelet_by_id(l).dynamic_obstacles_on_lanelet` raises AttributeError for a lanelet that is no longer (or not yet) in
+    the network, `lanelet_dict[t]` raises KeyError when the lanelet never registered anything at `t`.  Kept for
+    `C07_legacy_remove_raises_witness`. -/
+def removeLegacy (E : Env) (s : St) (o : Id) : Res St :=
   if o ∈ s.statics then
     .ok { s with sreg := removeStaticReg E o (s.fwd o) s.sreg, statics := s.statics.filter (· ≠ o) }
   else if o ∈ s.dynamics then
@@ -225,7 +244,7 @@ def remove (E : Env) (s : St) (o : Id) : Res St :=
       let r1 ← unregInit E o (s.fwd o) s.dreg
       let r2 ← unregPred E o (s.fwd o) r1
       pure { s with dreg := unregCenter E o (s.fwd o) r2, dynamics := s.dynamics.filter (· ≠ o) }
-  else .ok s        -- warning only
+  else .ok s
 
 /-! ### assign_obstacles_to_lanelets (scenario.py:1203-1295) -/
 
